@@ -40,6 +40,10 @@ func verifC09Concurrent() {
 	var err1, err2 error
 	verifSpawn(func() { id1, _, err1 = s.GetOrCreateValue(1, n1, create) })
 	verifSpawn(func() { id2, _, err2 = s.GetOrCreateValue(1, n2, create) })
+	if verifChoose("withPrepareFlush", 2) == 1 {
+		// a flush is being prepared at an arbitrary moment: the mutable map becomes the immutable one
+		verifSpawn(func() { s.PrepareFlush() })
+	}
 	verifJoinAll()
 	verifAssert(err1 == nil && err2 == nil, "get-or-create succeeds")
 	if string(n1) == string(n2) {
